@@ -114,7 +114,7 @@ def register(reg):
          ])
 
     # ---------------------------------------------------------------- optTraverse (C05)
-    fn("T_HOO.optTraverse", N=N, props="C01 C05", params={}, returns="tuple[ref:$N,list[ref:$N]]",
+    fn("T_HOO.optTraverse", N=N, props="C01 C04 C05", params={}, returns="tuple[ref:$N,list[ref:$N]]",
        requires=INV, modifies=[],
        ensures=[("path", "fresh(result[1]) and PathOK(self.partition, result[1])", "C05 C04"),
                 ("end", "result[0] is result[1][len(result[1]) - 1] and result[1][0] is self.partition.root "
@@ -192,7 +192,7 @@ def register(reg):
     ]
     fn("T_HOO.pull", N=N, props="C01 C04 C05 C15", params={"time": "int"}, returns="list[real]",
        requires=INV, modifies=["self.path"], ensures=INV + PULL_ENS)
-    fn("T_HOO.get_last_point", N=N, props="C01 C15", params={}, returns="list[real]",
+    fn("T_HOO.get_last_point", N=N, props="C01 C04 C15", params={}, returns="list[real]",
        requires=INV, modifies=["self.path"], ensures=INV + PULL_ENS)
     fn("T_HOO.receive_reward", N=N, props="C01 C03 C04 C05 C06 C15", params={"time": "int", "reward": "real"},
        requires=INV + [("pulled", "defined(self.path) and PathOK(self.partition, self.path) "
